@@ -107,6 +107,90 @@ theorem old_progress_false : ¬ (∀ (c : Cfg) (run : Nat → St), c.busy < c.ca
   have := flood_work j
   omega
 
+-- ------------------------------------------------------------------ the budget hypothesis is necessary
+
+/-- an import whose every database round ends "more" -/
+def rA : St := { nt := 1 }
+def rB : St := { wp := .impSus }
+def rC : St := { wp := .impCommit, hp := .wait }
+def rD : St := { wp := .impRes .more, hp := .wait }
+def rE : St := { wp := .push }
+def retryRun (i : Nat) : St :=
+  if i % 5 = 0 then rA else if i % 5 = 1 then rB else if i % 5 = 2 then rC else if i % 5 = 3 then rD else rE
+def retryLab (i : Nat) : Option Label :=
+  some (if i % 5 = 0 then .wTakeImp else if i % 5 = 1 then .sus else if i % 5 = 2 then .wCommitI .more
+        else if i % 5 = 3 then .res else .wPush)
+
+theorem retry_step (i : Nat) : fire .fixed cfg4 ((retryLab i).getD .eTx) (retryRun i) = some (retryRun (i + 1)) := by
+  have h : i % 5 = 0 ∨ i % 5 = 1 ∨ i % 5 = 2 ∨ i % 5 = 3 ∨ i % 5 = 4 := by omega
+  rcases h with h | h | h | h | h
+  · have h' : (i + 1) % 5 = 1 := by omega
+    simp [retryLab, retryRun, h, h']; decide
+  · have h' : (i + 1) % 5 = 2 := by omega
+    simp [retryLab, retryRun, h, h']; decide
+  · have h' : (i + 1) % 5 = 3 := by omega
+    simp [retryLab, retryRun, h, h']; decide
+  · have h' : (i + 1) % 5 = 4 := by omega
+    simp [retryLab, retryRun, h, h']; decide
+  · have h' : (i + 1) % 5 = 0 := by omega
+    simp [retryLab, retryRun, h, h']; decide
+
+theorem retry_isRun : IsRun cfg4 retryRun retryLab := by
+  refine ⟨by simp [Init, retryRun, rA, cfg4], ?_⟩
+  intro i
+  have := retry_step i
+  simpa [retryLab] using this
+
+/-- with the worker parked at suspend and nothing queued for the follower, only the hand-shake is enabled -/
+theorem rB_disabled (l : Label) (hl : l.core = true) (h1 : l ≠ .sus) : fire .fixed cfg4 l rB = none := by
+  cases l <;> simp [Label.core] at hl <;> first | rfl | exact absurd rfl h1
+
+theorem retry_sus : SF (fire .fixed cfg4) retryRun retryLab .sus := by
+  intro i _
+  refine ⟨5 * i + 1, by omega, ?_⟩
+  have : (5 * i + 1) % 5 = 1 := by omega
+  simp [retryLab, this]
+
+theorem retry_weak (l : Label) (hl : l.core = true) : WF (fire .fixed cfg4) retryRun retryLab l := by
+  by_cases h1 : l = .sus
+  · rw [h1]; exact retry_sus.wf
+  · intro i hen
+    have := hen (5 * i + 1) (by omega)
+    have h3 : (5 * i + 1) % 5 = 1 := by omega
+    simp [En, retryRun, h3, rB_disabled l hl h1] at this
+
+theorem retry_noFollower (l : Label) (hl : l = .hTakeBlk ∨ l = .hTakeTx) :
+    SF (fire .fixed cfg4) retryRun retryLab l := by
+  intro i hen
+  obtain ⟨k, _, hk⟩ := hen i (Nat.le_refl i)
+  have hn : fire .fixed cfg4 l (retryRun k) = none := by
+    have h : k % 5 = 0 ∨ k % 5 = 1 ∨ k % 5 = 2 ∨ k % 5 = 3 ∨ k % 5 = 4 := by omega
+    rcases hl with rfl | rfl <;> rcases h with h | h | h | h | h <;> simp [retryRun, h] <;> rfl
+  rw [En, hn] at hk
+  cases hk
+
+theorem retry_fair : FairRun cfg4 retryRun retryLab :=
+  ⟨retry_weak, retry_sus, retry_noFollower _ (Or.inl rfl), retry_noFollower _ (Or.inr rfl)⟩
+
+theorem retry_quit (j : Nat) : (retryRun j).quit = false := by
+  have h : j % 5 = 0 ∨ j % 5 = 1 ∨ j % 5 = 2 ∨ j % 5 = 3 ∨ j % 5 = 4 := by omega
+  rcases h with h | h | h | h | h <;> simp [retryRun, h] <;> rfl
+
+theorem retry_fin (j : Nat) : (obs retryRun retryLab j).fin = [] := by
+  induction j with
+  | zero => rfl
+  | succ j ih =>
+    have h : j % 5 = 0 ∨ j % 5 = 1 ∨ j % 5 = 2 ∨ j % 5 = 3 ∨ j % 5 = 4 := by omega
+    rcases h with h | h | h | h | h <;>
+      simp [obs, retryLab, retryRun, h, gstep, rD, resNext] <;> exact ih
+
+/-- without a bound on the unfinished rounds of a task, `progress` (b) fails: a fair run, no stop request, task 0
+    accepted and never finished -/
+theorem budget_needed : ∃ (c : Cfg) (run : Nat → St) (ls : Nat → Option Label), c.busy < c.cap ∧ IsRun c run ls ∧
+    FairRun c run ls ∧ (∀ i, (run i).quit = false) ∧ 0 < (obs run ls 0).next ∧ ∀ j, 0 ∉ (obs run ls j).fin :=
+  ⟨cfg4, retryRun, retryLab, by decide, retry_isRun, retry_fair, retry_quit, by decide,
+   fun j => by rw [retry_fin j]; exact List.not_mem_nil⟩
+
 -- ------------------------------------------------------------------ a fair run (non-vacuity of the hypotheses of `progress`)
 
 /-- one import queued and one block announced; the worker takes the task, the follower processes the block, then
@@ -230,5 +314,66 @@ theorem stop_noPush (j : Nat) : stopLab j ≠ some .aPush := by
   | 3 => decide
   | 4 => decide
   | j + 5 => simp [stopLab, stopLabs]
+
+-- ------------------------------------------------------------------ `stop_live` needs the API to be quiet after the stop request
+
+def qA : St := { quit := true, sp := .waiting, hp := .done }
+def qB : St := { quit := true, sp := .waiting, hp := .done, ap := .checked }
+def qC : St := { quit := true, sp := .waiting, hp := .done, nt := 1 }
+def qD : St := { quit := true, sp := .waiting, hp := .done, wp := .remChk }
+/-- stop request, the follower returns; then for ever: an API call queues a removal, the worker's select takes it
+    (not quit), the removal aborts at its quit check -/
+def busyRun : Nat → St
+  | 0 => {}
+  | 1 => { quit := true, sp := .waiting }
+  | k + 2 => if k % 4 = 0 then qA else if k % 4 = 1 then qB else if k % 4 = 2 then qC else qD
+def busyLab : Nat → Option Label
+  | 0 => some .eStop
+  | 1 => some .hQuit
+  | k + 2 => some (if k % 4 = 0 then .aCheck else if k % 4 = 1 then .aPush else if k % 4 = 2 then .wTakeRem else .wChkQuit)
+
+theorem busy_isRun : IsRun cfg4 busyRun busyLab := by
+  refine ⟨by simp [Init, busyRun, cfg4], ?_⟩
+  intro i
+  match i with
+  | 0 => rfl
+  | 1 => rfl
+  | k + 2 =>
+    have h : k % 4 = 0 ∨ k % 4 = 1 ∨ k % 4 = 2 ∨ k % 4 = 3 := by omega
+    rcases h with h | h | h | h
+    · have h' : (k + 1) % 4 = 1 := by omega
+      simp [busyLab, busyRun, h, h']; decide
+    · have h' : (k + 1) % 4 = 2 := by omega
+      simp [busyLab, busyRun, h, h']; decide
+    · have h' : (k + 1) % 4 = 3 := by omega
+      simp [busyLab, busyRun, h, h']; decide
+    · have h' : (k + 1) % 4 = 0 := by omega
+      simp [busyLab, busyRun, h, h']; decide
+
+theorem qD_disabled (l : Label) (hl : l.core = true) (h1 : l ≠ .wChkQuit) : fire .fixed cfg4 l qD = none := by
+  cases l <;> simp [Label.core] at hl <;> first | rfl | exact absurd rfl h1
+
+theorem busy_weak (l : Label) (hl : l.core = true) : WF (fire .fixed cfg4) busyRun busyLab l := by
+  intro i hen
+  have h3 : (4 * i + 3) % 4 = 3 := by omega
+  by_cases h1 : l = .wChkQuit
+  · refine ⟨4 * i + 3 + 2, by omega, ?_⟩
+    simp [busyLab, h3, h1]
+  · have := hen (4 * i + 3 + 2) (by omega)
+    simp [En, busyRun, h3, qD_disabled l hl h1] at this
+
+theorem busy_notFinal (j : Nat) : ¬ Final (busyRun j) := by
+  match j with
+  | 0 => simp [Final, busyRun]
+  | 1 => simp [Final, busyRun]
+  | k + 2 =>
+    have h : k % 4 = 0 ∨ k % 4 = 1 ∨ k % 4 = 2 ∨ k % 4 = 3 := by omega
+    rcases h with h | h | h | h <;> simp [Final, busyRun, h, qA, qB, qC, qD]
+
+/-- weak fairness alone does not make Stop return when API calls keep queueing tasks after the stop request -/
+theorem stop_needs_quiet_api : ∃ (c : Cfg) (run : Nat → St) (ls : Nat → Option Label), c.busy < c.cap ∧
+    IsRun c run ls ∧ (∀ l : Label, l.core = true → WF (fire .fixed c) run ls l) ∧ (run 1).quit = true ∧
+    ∀ j, ¬ Final (run j) :=
+  ⟨cfg4, busyRun, busyLab, by decide, busy_isRun, busy_weak, rfl, busy_notFinal⟩
 
 end MW.Lemmas.ProtoLiveEx
